@@ -1,5 +1,6 @@
 import ZipVerif.Model.Extract
 import ZipVerif.Lemmas.FS
+import ZipVerif.Lemmas.ModeOrder
 /-
 Confinement of the two extractor models: whatever the entries are and wherever a run stops, the final
 state arises from the initial one by `Steps root` (bindings inside `root`, or creation of missing
@@ -81,155 +82,157 @@ theorem applyMode_steps (c : Cfg) (root : Path) (n : Name) (mode : Option Nat) (
     · next fs' h => exact setPermissions_steps hin h
     · exact Steps.refl fs
 
-theorem seekEntry_steps (c : Cfg) (root : Path) (e : EntryView) (fs : FS) :
-    Steps root fs (seekEntry c root e fs).1 := by
-  unfold seekEntry
+theorem placeFile_steps (c : Cfg) (chk : Bool) (root : Path) (e : EntryView) (fs : FS) :
+    Steps root fs (placeFile c chk root e fs).1 := by
+  unfold placeFile
   split
   · exact Steps.refl fs
   · split
     · exact Steps.refl fs
-    · next p hp =>
-      have hs := safe_of_enclosed hp
-      have h1 := placeEntry_steps c true root e fs hs
-      split
-      · next fs1 er he => rw [he] at h1; exact h1
-      · next fs1 he => rw [he] at h1; exact h1.trans (applyMode_steps c root e.name e.mode fs1 hs)
+    · next p hp => exact placeEntry_steps c chk root e fs (safe_of_enclosed hp)
 
-theorem extractSeek_steps (c : Cfg) (root : Path) (es : List EntryView) (fs : FS) :
-    Steps root fs (extractSeek c root es fs).1 := by
+theorem placeFiles_steps (c : Cfg) (chk : Bool) (root : Path) (es : List EntryView) (fs : FS) :
+    Steps root fs (placeFiles c chk root es fs).1 := by
   induction es generalizing fs with
   | nil => exact Steps.refl fs
   | cons e es ih =>
-    simp only [extractSeek]
-    have h1 := seekEntry_steps c root e fs
+    simp only [placeFiles]
+    have h1 := placeFile_steps c chk root e fs
     split
     · next fs1 er he => rw [he] at h1; exact h1
     · next fs1 he => rw [he] at h1; exact h1.trans (ih fs1)
 
-theorem streamFile_steps (c : Cfg) (root : Path) (e : EntryView) (fs : FS) :
-    Steps root fs (streamFile c root e fs).1 := by
-  unfold streamFile
-  split
-  · exact Steps.refl fs
-  · split
-    · exact Steps.refl fs
-    · next p hp => exact placeEntry_steps c false root e fs (safe_of_enclosed hp)
-
-theorem streamFiles_steps (c : Cfg) (root : Path) (es : List EntryView) (fs : FS) :
-    Steps root fs (streamFiles c root es fs).1 := by
+/-- A run of the placing loop that succeeds has seen only names accepted by `enclosed_name`. -/
+theorem placeFiles_ok_enclosed {c : Cfg} {chk : Bool} {root : Path} {es : List EntryView} {fs fs1 : FS}
+    (h : placeFiles c chk root es fs = (fs1, none)) : ∀ e ∈ es, (enclosedName e.name).isSome = true := by
   induction es generalizing fs with
-  | nil => exact Steps.refl fs
-  | cons e es ih =>
-    simp only [streamFiles]
-    have h1 := streamFile_steps c root e fs
-    split
-    · next fs1 er he => rw [he] at h1; exact h1
-    · next fs1 he => rw [he] at h1; exact h1.trans (ih fs1)
+  | nil => intro e he; cases he
+  | cons e0 es ih =>
+    simp only [placeFiles] at h
+    split at h
+    · cases h
+    · next fs2 he =>
+      intro e hm
+      rcases List.mem_cons.mp hm with rfl | hm
+      · unfold placeFile at he
+        split at he
+        · cases he
+        · split at he
+          · cases he
+          · next p hp => rw [hp]; rfl
+      · exact ih h e hm
 
-theorem streamMeta_steps (c : Cfg) (root : Path) (m : Name × Option Nat) (fs : FS) :
-    Steps root fs (streamMeta c root m fs).1 := by
-  unfold streamMeta
-  split
-  · exact Steps.refl fs
-  · next p hp => exact applyMode_steps c root m.1 m.2 fs (safe_of_enclosed hp)
-
-theorem streamMetas_steps (c : Cfg) (root : Path) (ms : List (Name × Option Nat)) (fs : FS) :
-    Steps root fs (streamMetas c root ms fs).1 := by
+theorem applyModes_steps (c : Cfg) (root : Path) (ms : List (Name × Option Nat)) (fs : FS)
+    (hs : ∀ m ∈ ms, (enclosedName m.1).isSome = true) : Steps root fs (applyModes c root ms fs).1 := by
   induction ms generalizing fs with
   | nil => exact Steps.refl fs
   | cons m ms ih =>
-    simp only [streamMetas]
-    have h1 := streamMeta_steps c root m fs
+    simp only [applyModes]
+    obtain ⟨p, hp⟩ := Option.isSome_iff_exists.mp (hs m (by simp))
+    have h1 := applyMode_steps c root m.1 m.2 fs (safe_of_enclosed hp)
     split
     · next fs1 er he => rw [he] at h1; exact h1
-    · next fs1 he => rw [he] at h1; exact h1.trans (ih fs1)
+    · next fs1 he =>
+      rw [he] at h1
+      exact h1.trans (ih fs1 (fun m' hm' => hs m' (List.mem_cons_of_mem _ hm')))
+
+theorem extractSeek_steps (c : Cfg) (root : Path) (es : List EntryView) (fs : FS) :
+    Steps root fs (extractSeek c root es fs).1 := by
+  unfold extractSeek
+  have h1 := placeFiles_steps c true root es fs
+  split
+  · next fs1 er he => rw [he] at h1; exact h1
+  · next fs1 he =>
+    rw [he] at h1
+    refine h1.trans (applyModes_steps c root _ fs1 ?_)
+    intro m hm
+    obtain ⟨e, he', rfl⟩ := List.mem_map.mp (mem_modeOrder hm).1
+    exact placeFiles_ok_enclosed he e he'
+
+theorem checkMetas_ok {ms : List (Name × Option Nat)} (h : checkMetas ms = none) :
+    ∀ m ∈ ms, (enclosedName m.1).isSome = true := by
+  induction ms with
+  | nil => intro m hm; cases hm
+  | cons m0 ms ih =>
+    simp only [checkMetas] at h
+    split at h
+    · cases h
+    · next p hp =>
+      intro m hm
+      rcases List.mem_cons.mp hm with rfl | hm
+      · rw [hp]; rfl
+      · exact ih h m hm
 
 theorem extractStream_steps (c : Cfg) (root : Path) (files : List EntryView)
     (metas : List (Name × Option Nat)) (fs : FS) :
     Steps root fs (extractStream c root files metas fs).1 := by
   unfold extractStream
-  have h1 := streamFiles_steps c root files fs
+  have h1 := placeFiles_steps c false root files fs
   split
   · next fs1 er he => rw [he] at h1; exact h1
   · next fs1 he =>
     rw [he] at h1
     split
     · exact h1
-    · exact h1.trans (streamMetas_steps c root metas fs1)
+    · split
+      · exact h1
+      · next hck =>
+        exact h1.trans (applyModes_steps c root _ fs1
+          (fun m hm => checkMetas_ok hck m (mem_modeOrder hm).1))
 
 /-! ### unsafe names -/
 
+theorem placeFiles_unsafe (c : Cfg) (chk : Bool) (root : Path) (es : List EntryView) (fs : FS)
+    (h : ∃ e ∈ es, enclosedName e.name = none) : (placeFiles c chk root es fs).2.isSome = true := by
+  cases hr : placeFiles c chk root es fs with
+  | mk fs1 er =>
+    cases er with
+    | some _ => rfl
+    | none =>
+      obtain ⟨e, he, hn⟩ := h
+      have := placeFiles_ok_enclosed hr e he
+      rw [hn] at this; cases this
+
 theorem extractSeek_unsafe (c : Cfg) (root : Path) (es : List EntryView) (fs : FS)
     (h : ∃ e ∈ es, enclosedName e.name = none) : (extractSeek c root es fs).2.isSome = true := by
-  induction es generalizing fs with
-  | nil => obtain ⟨e, he, _⟩ := h; cases he
-  | cons e es ih =>
-    simp only [extractSeek]
-    split
-    · rfl
-    · next fs1 he =>
-      apply ih
-      obtain ⟨e', hm, hn⟩ := h
-      rcases List.mem_cons.mp hm with rfl | hm
-      · exfalso
-        unfold seekEntry at he
-        split at he
-        · cases he
-        · rw [hn] at he; cases he
-      · exact ⟨e', hm, hn⟩
+  unfold extractSeek
+  have := placeFiles_unsafe c true root es fs h
+  split
+  · rfl
+  · next fs1 he => rw [he] at this; cases this
 
-/-- The first unsafe entry that is reached: the run stops there with `InvalidArchive("Invalid file
-path")`, having done nothing for that entry or any later one. -/
-theorem extractSeek_unsafe_at (c : Cfg) (root : Path) (pre post : List EntryView) (e : EntryView)
-    (fs fs1 : FS) (hpre : extractSeek c root pre fs = (fs1, none)) (ho : e.openErr = none)
+theorem placeFiles_unsafe_at (c : Cfg) (chk : Bool) (root : Path) (pre post : List EntryView) (e : EntryView)
+    (fs fs1 : FS) (hpre : placeFiles c chk root pre fs = (fs1, none)) (ho : e.openErr = none)
     (hn : enclosedName e.name = none) :
-    extractSeek c root (pre ++ e :: post) fs = (fs1, some .invalidPath) := by
+    placeFiles c chk root (pre ++ e :: post) fs = (fs1, some .invalidPath) := by
   induction pre generalizing fs with
   | nil =>
-    simp only [extractSeek, Prod.mk.injEq] at hpre
+    simp only [placeFiles, Prod.mk.injEq] at hpre
     obtain ⟨rfl, _⟩ := hpre
-    simp [extractSeek, seekEntry, ho, hn]
+    simp [placeFiles, placeFile, ho, hn]
   | cons a pre ih =>
-    simp only [extractSeek, List.cons_append] at hpre ⊢
+    simp only [placeFiles, List.cons_append] at hpre ⊢
     split at hpre
     · cases hpre
     · next fs2 he => exact ih fs2 hpre
 
-theorem streamFiles_unsafe (c : Cfg) (root : Path) (es : List EntryView) (fs : FS)
-    (h : ∃ e ∈ es, enclosedName e.name = none) : (streamFiles c root es fs).2.isSome = true := by
-  induction es generalizing fs with
-  | nil => obtain ⟨e, he, _⟩ := h; cases he
-  | cons e es ih =>
-    simp only [streamFiles]
-    split
-    · rfl
-    · next fs1 he =>
-      apply ih
-      obtain ⟨e', hm, hn⟩ := h
-      rcases List.mem_cons.mp hm with rfl | hm
-      · exfalso
-        unfold streamFile at he
-        split at he
-        · cases he
-        · rw [hn] at he; cases he
-      · exact ⟨e', hm, hn⟩
+/-- The first unsafe entry that is reached: the run stops there with `InvalidArchive("Invalid file
+path")`, having done nothing for that entry or any later one, and no mode is applied at all. -/
+theorem extractSeek_unsafe_at (c : Cfg) (root : Path) (pre post : List EntryView) (e : EntryView)
+    (fs fs1 : FS) (hpre : placeFiles c true root pre fs = (fs1, none)) (ho : e.openErr = none)
+    (hn : enclosedName e.name = none) :
+    extractSeek c root (pre ++ e :: post) fs = (fs1, some .invalidPath) := by
+  unfold extractSeek
+  rw [placeFiles_unsafe_at c true root pre post e fs fs1 hpre ho hn]
 
-theorem streamMetas_unsafe (c : Cfg) (root : Path) (ms : List (Name × Option Nat)) (fs : FS)
-    (h : ∃ m ∈ ms, enclosedName m.1 = none) : (streamMetas c root ms fs).2.isSome = true := by
-  induction ms generalizing fs with
-  | nil => obtain ⟨e, he, _⟩ := h; cases he
-  | cons m ms ih =>
-    simp only [streamMetas]
-    split
-    · rfl
-    · next fs1 he =>
-      apply ih
-      obtain ⟨m', hm, hn⟩ := h
-      rcases List.mem_cons.mp hm with rfl | hm
-      · exfalso
-        unfold streamMeta at he
-        rw [hn] at he; cases he
-      · exact ⟨m', hm, hn⟩
+theorem checkMetas_unsafe {ms : List (Name × Option Nat)} (h : ∃ m ∈ ms, enclosedName m.1 = none) :
+    (checkMetas ms).isSome = true := by
+  cases hc : checkMetas ms with
+  | some _ => rfl
+  | none =>
+    obtain ⟨m, hm, hn⟩ := h
+    have := checkMetas_ok hc m hm
+    rw [hn] at this; cases this
 
 theorem extractStream_unsafe (c : Cfg) (root : Path) (files : List EntryView)
     (metas : List (Name × Option Nat)) (fs : FS)
@@ -240,10 +243,13 @@ theorem extractStream_unsafe (c : Cfg) (root : Path) (files : List EntryView)
   · rfl
   · next fs1 he =>
     rcases h with h | h
-    · have := streamFiles_unsafe c root files fs h
+    · have := placeFiles_unsafe c false root files fs h
       rw [he] at this; cases this
     · split
       · rfl
-      · exact streamMetas_unsafe c root metas fs1 h
+      · have := checkMetas_unsafe h
+        split
+        · rfl
+        · next hck => rw [hck] at this; cases this
 
 end ZipVerif.Model.Extract
